@@ -369,6 +369,22 @@ func (fc *FnCtx) run() (err error) {
 			states = next
 			continue
 		}
+		if sp.Expr != nil {
+			var next []*State
+			for _, st0 := range states {
+				ev := fc.evalSpec(fc.entryEnv(st0), sp.Expr)
+				fc.oblige(st0, fc.key+".split["+sp.Var+"]", "split", nil, fmt.Sprintf("%s in %d..%d", sp.Var, sp.Lo, sp.Hi),
+					mkAnd(mkLe(mkI(int64(sp.Lo)), ev.T), mkLe(ev.T, mkI(int64(sp.Hi)))), "entry")
+				for k := sp.Lo; k <= sp.Hi; k++ {
+					c := st0.clone()
+					c.assume(mkEq(ev.T, mkI(int64(k))))
+					c.trace = append(c.trace, fmt.Sprintf("split %s=%d", sp.Var, k))
+					next = append(next, c)
+				}
+			}
+			states = next
+			continue
+		}
 		if !ok || pv.K != VInt {
 			return fmt.Errorf("%s: split variable %s is not an integer parameter", fc.key, sp.Var)
 		}
@@ -399,6 +415,9 @@ func (fc *FnCtx) run() (err error) {
 		if len(fc.ct.Splits) > 0 {
 			// entry values of split params become literals for this sub-proof
 			for _, sp := range fc.ct.Splits {
+				if sp.Expr != nil || sp.Table != "" {
+					continue
+				}
 				for _, p := range fn.Params {
 					if p.Name() == sp.Var {
 						fc.entry[sp.Var] = st2.regs[p]
@@ -446,7 +465,7 @@ func (fc *FnCtx) entryEnv(s *State) *Env {
 	for k, v := range fc.entry {
 		names[k] = v
 	}
-	return &Env{fc: fc, names: names, heap: s.heap, oldNames: names, oldHeap: fc.oldHeap, pos: fc.fn.Pos()}
+	return &Env{fc: fc, names: names, heap: s.heap, oldNames: names, oldHeap: fc.oldHeap, pos: fc.fn.Pos(), nalloc0: fc.nalloc0, nobj0: fc.nobj0}
 }
 
 // globalAssumptions adds the `global` invariants of the contract file.
